@@ -16,6 +16,21 @@ CHECKS["C16"] = dict(
  note="N in 3..26 (quick) / 3..72 (thorough) x 7 mins x 9 spacings x 4 orders. Coordinates compared within 8 ulp of the rational value. The Cartesian<->spherical round trip and consumer shapes are evaluated by the harness on the spec-enumerated grids (harness-side clauses, not TLC facts).",
  technique="TLA+ spec of the grid in exact rationals model-checked with TLC; every enumerated state replayed against the real FiniteDifference object",
  design_ref="DESIGN.md 4.6, 5/C16")
+CHECKS["C01"] = dict(
+ text="AurelCache.tla is a small-step model of AurelCore.__getitem__/cleanup_cache/freeze_data (nested evaluation stack, guard tests, age table, eviction policy, object identities); the evaluation programs of all description keys and helper calls (decision trees over the 'X in self.data' guards, with alias / in-place-write flags) are extracted from the working tree at check time. TLC explores all histories of two top-level requests on the real 161-key graph under several cache settings and input presentations (millions of states), checks NoReentrancy, CacheNeverWritten, NoUnexplored, StackBounded, and emits the shortest history reaching every (key, branch) plus simulated longer behaviours; every history is replayed on the real AurelCore on non-degenerate data and every returned value compared with a fresh instance; recorded event streams are validated by TLC against TraceCache.tla (every guard outcome, read, eviction bound to the model).",
+ note="Exhaustive for <= 2 top-level requests per setting on the real graph (every guard valuation of every key reached), sampled beyond (simulate). Inputs frozen first (README protocol). Values compared with tolerance 2e-7 relative. st_Weyl_down4 consumers compared within the same construction on off-shell data. Trusted: extractor (cross-checked by trace validation), TLC, numpy.",
+ technique="TLA+ small-step cache model on the dependency/guard graph extracted from the code; TLC exhaustive + simulate; behaviours replayed on the real AurelCore against a fresh-instance oracle; recorded traces validated by TLC",
+ design_ref="DESIGN.md 4.1, 5/C01")
+CHECKS["C02"] = dict(
+ text="Heap part of AurelCache.tla (object identity per cached entry, aliases/views, objects held by frames, objects written in place, objects handed to the user); action property NoInPlaceWrite checked by TLC over all two-request histories on the extracted graph (in-place writers are detected by the extractor from byte digests at read time). Behaviours are replayed on the real AurelCore twice: byte digests of all inputs and of everything returned so far after every request, and a second pass with those arrays read-only so that a write raises at its source line. Traces validated by TLC. Argument objects of over_time/save_data/read_data are deep-compared before/after.",
+ note="A write is observed as a byte change or a ValueError on a read-only array. Exhaustive for <= 2 requests (no-eviction setting, where aliases live longest), sampled beyond.",
+ technique="TLA+ heap/alias model of the cache checked with TLC; behaviours replayed on the real code with byte digests and read-only arrays; traces validated by TLC",
+ design_ref="DESIGN.md 4.1, 5/C02")
+CHECKS["C03"] = dict(
+ text="AurelCache.tla safety layer (ANY set of unfrozen entries older than one calculation may be evicted at any clean-up point; freeze_data between requests) checked exhaustively by TLC on a dependency-closed sub-graph: FrozenNeverEvicted, FrozenNeverAltered, AgeTableSubsetOfCache, OnlyWholeUnfrozenEntries, CountMonotone, PolicyRefinement, and termination of every request under fairness; the code's strain policy (period 1..3, memory threshold below the inputs) on the real extracted graph. Behaviours are replayed on the real AurelCore (frozen entries present and byte-identical, last_accessed subset of data, no exception from cleanup_cache, wall-clock guard, importance overrides) and every nested step is checked by TLC trace validation against the named invariants.",
+ note="Safety layer exhaustive for <= 3 requests on a 6-request sub-graph; real graph exhaustive for <= 2 requests with the most aggressive settings; simulate beyond. Liveness only on the sub-graph; on the real code non-termination is caught by the wall-clock guard.",
+ technique="TLA+ safety-layer/policy model of cache clean-up checked with TLC (safety + liveness); replay on the real code and TLC trace validation of every nested step",
+ design_ref="DESIGN.md 4.1, 5/C03")
 
 NA = {
  "C17": "Closed-form transcendental solutions (sin, sinh, 2F1, t^(2/3)): no state, history or case analysis for a TLA+ specification to enumerate, and TLC has neither reals nor transcendental functions; a CAS/interval technique would be a different family (DESIGN.md section 6).",
